@@ -133,9 +133,11 @@ class TempProject:
             lines += ["commit = %s" % b(o["commit"]), "tag = %s" % b(o["tag"]), "push = %s" % b(o["push"])]
             lines += self.extra_cfg_lines
             lines += ["", "[bumpver:file_patterns]"]
-            for path, pats in self.files.items():
-                lines.append("%s =" % path)
-                for p in pats:
+            for k_, (path, pats) in enumerate(self.files.items()):
+                # both ini layouts: all patterns on continuation lines / the first pattern on the key's own line
+                same_line = k_ % 2 == 1 and pats and not pats[0].startswith((" ", "#", ";")) and pats[0].strip() == pats[0]
+                lines.append("%s = %s" % (path, pats[0]) if same_line else "%s =" % path)
+                for p in (pats[1:] if same_line else pats):
                     lines.append("    %s" % p)
         return self.cfg_prefix + "\n".join(lines) + "\n"
 
